@@ -50,12 +50,44 @@ edit('src/expr.rs', [("Some(ref right) => Self::contains_numeric_field(right),\n
 edit('src/operators.rs', [("            Op::Eq => Op::Ne,\n            Op::Ne => Op::Eq,", "            Op::Ne => Op::Eq,\n            Op::Eq => Op::Ne,")])
 edit('src/mode.rs', [("mode & S_IRUSR == S_IRUSR", "(mode & S_IRUSR) != 0")])
 edit('src/parser.rs', [("                        if let Ok(limit) = s.parse() {\n                            return Ok(limit);", "                        if let Ok(n) = s.parse() {\n                            return Ok(n);")])
+# the functions hosted whole in scripted worlds (C17 / C18 / C19): renamed locals, swapped conjuncts, `contains` + `insert` folded into `insert`
+edit('src/util/mod.rs', [
+ ("""        let mut reader = BufReader::with_capacity(1024 * 32, file);
+        let mut count = 0;
+""", """        let mut rd = BufReader::with_capacity(1024 * 32, file);
+        let mut count = 0;
+"""),
+ ("""                if let Ok(buf) = reader.fill_buf() {
+                    if buf.is_empty() {
+                        break;
+                    }
+
+                    count += bytecount::count(buf, b'\n');
+                    buf.len()""", """                if let Ok(chunk) = rd.fill_buf() {
+                    if chunk.is_empty() {
+                        break;
+                    }
+
+                    count += bytecount::count(chunk, b'\n');
+                    chunk.len()"""),
+ ("            reader.consume(len);", "            rd.consume(len);"),
+ ("            return buf[0] == 0x23 && buf[1] == 0x21;", "            return buf[1] == 0x21 && buf[0] == 0x23;"),
+])
+edit('src/util/datetime.rs', [(".and_then(|date| date.and_hms_opt(", ".and_then(|day| day.and_hms_opt(")])
+edit('src/searcher.rs', [("""            if self.visited_dirs.contains(&real_dir) {
+                return Ok(());
+            } else {
+                self.visited_dirs.insert(real_dir);
+            }""", """            if !self.visited_dirs.insert(real_dir) {
+                return Ok(());
+            }""")])
 bad = 0
-env = dict(os.environ, VERIF_REPO=d)
-for prop in ['C01', 'C02', 'C03', 'C04', 'C05', 'C06', 'C10', 'C11']:
+out = tempfile.mkdtemp(prefix='fselect-harmless-out.', dir='/tmp')
+env = dict(os.environ, VERIF_REPO=d, VERIF_OUT=out)      # evidence and replays of this pass go to a scratch directory
+for prop in (sys.argv[1:] or ['C01', 'C02', 'C03', 'C04', 'C05', 'C06', 'C10', 'C11', 'C17', 'C18', 'C19']):
     p = subprocess.run(['python3', os.path.join(os.path.dirname(__file__), 'run_check.py'), prop], env=env, capture_output=True, text=True)
     print(prop, 'exit', p.returncode, p.stdout.strip().split('\n')[-1])
-    bad += p.returncode == 1
+    bad += p.returncode != 0        # exit 2 (undecided) on a harmless edit is reported too: it is not an alarm, but worth knowing
 shutil.rmtree(d, ignore_errors=True)
-subprocess.run(['git', '-C', os.path.dirname(os.path.dirname(os.path.abspath(__file__))), 'checkout', '--', 'evidence'])
+shutil.rmtree(out, ignore_errors=True)
 sys.exit(1 if bad else 0)
